@@ -1,9 +1,13 @@
 SPECIFICATION Spec
 CONSTANTS
-  Part = "member"
+  Part = "shapes"
   MaxArms = 1
 INVARIANT LogInOrder
+INVARIANT ChainOK
+INVARIANT ChainDuals
+INVARIANT PairOK
 INVARIANT MemberOK
 INVARIANT FlattenOffHazards
+INVARIANT StrinOK
 INVARIANT Publish
 CHECK_DEADLOCK FALSE
